@@ -1,6 +1,8 @@
 package c02
 
 import (
+	"os"
+
 	"wrverif/mp"
 	"wrverif/render"
 	"wrverif/res"
@@ -28,11 +30,17 @@ func Run(tier string, seed uint64, modelPath, repo string, out *res.Result) erro
 	if err != nil {
 		return err
 	}
-	if err := runClassF(m, r.Sub(), nF, fonts, out); err != nil {
-		return err
+	rF, rG := r.Sub(), r.Sub()
+	only := os.Getenv("C02_ONLY") // debugging aid: "classf" | "general"
+	if only != "general" {
+		if err := runClassF(m, rF, nF, fonts, out); err != nil {
+			return err
+		}
 	}
-	if err := runGeneral(m, r.Sub(), nG, fonts, out); err != nil {
-		return err
+	if only != "classf" {
+		if err := runGeneral(m, rG, nG, fonts, out); err != nil {
+			return err
+		}
 	}
 	out.ModelCalls = m.N
 	return nil
